@@ -428,7 +428,7 @@ Lemma vsize_vbytes v : vsize v = zlength (vbytes v).
 Proof.
   induction v as [|x t IH]; [reflexivity|]. cbn [vsize fold_right vbytes concat].
   change (fold_right (fun x a => zlength x + a) 0 t) with (vsize t). rewrite IH.
-  unfold zlength. rewrite app_length. lia.
+  unfold zlength, vbytes. rewrite app_length. lia.
 Qed.
 
 Lemma trimFront_bytes v : forall n, 0 <= n -> vbytes (vv_trimFront v n) = skipn (Z.to_nat n) (vbytes v).
@@ -484,12 +484,12 @@ Proof.
 Qed.
 
 (* what fdbased hands to the NIC: the frame without its Ethernet header, nothing lost or added
-   (frames up to the total buffer size, 65408 bytes) *)
-Theorem fd_views_carry_the_frame frame : zlength frame <= 65408 ->
+   (frames up to the total buffer size, 65664 bytes) *)
+Theorem fd_views_carry_the_frame frame : zlength frame <= 65664 ->
   vbytes (vv_trimFront (split_views BufConfig frame) 14) = skipn 14 frame.
 Proof.
   intros H. rewrite trimFront_bytes by lia. rewrite split_views_bytes.
-  - change (fold_right Z.add 0 BufConfig) with 65408. rewrite firstn_all2; [reflexivity|].
+  - change (fold_right Z.add 0 BufConfig) with 65664. rewrite firstn_all2; [reflexivity|].
     unfold zlength in H. lia.
   - unfold BufConfig. repeat constructor; lia.
 Qed.
